@@ -410,6 +410,7 @@ def _run_impl(case: dict) -> dict:
         return {'late_errors': [list(x) for x in errors], 'late_events': [list(x) for x in events],
                 'handlers_pending': sum(1 for t in handler_tasks if not t.done()), 'keep': len(keep),
                 'lis': {k: [list(x) for x in v] for k, v in lrec.items()} if lis else None,
+                'listeners_busy': len(lrec['enter']) - len(lrec['exit']),
                 'tickets': {str(i): o.ticket for i, o in enumerate(objs)}}
 
     try:
@@ -417,7 +418,7 @@ def _run_impl(case: dict) -> dict:
         res, loop = _sl.run(main, start=START, wall_timeout=30.0)
         tail = {'late_errors': res['late_errors'], 'loop_exceptions': loop.exceptions,
                 'late_events': res['late_events'], 'handlers_pending': res['handlers_pending'], 'lis': res['lis'],
-                'tickets': res['tickets']}
+                'tickets': res['tickets'], 'listeners_busy': res['listeners_busy']}
     except Exception as e:  # harness-level failure of this case (e.g. the loop does not quiesce)
         tail = {'late_errors': [], 'loop_exceptions': [], 'harness': f'{type(e).__name__}: {e}'}
     return {'steps': steps, 'tail': tail}
@@ -684,7 +685,7 @@ def _monitor(case: dict, tr: dict) -> list[Violation]:
             bad('C18-result-missing', f'op #{g["op"]}: the reply for ticket {g["tk"]} was never reported although '
                 'the request stayed registered', observed=0, required=1)
     _listener_check(case, tr, bad)
-    if t.get('handlers_pending'):
+    if t.get('handlers_pending') and not t.get('listeners_busy'):     # (a listener may still be asleep: not stuck)
         bad('C18-handler-stuck', 'a reply handler did not finish after its connection was released',
             observed=t['handlers_pending'])
     if t['late_errors'] or t['loop_exceptions']:
@@ -1043,6 +1044,191 @@ def _fixed_gsent() -> list[dict]:
     return out
 
 
+def _gen_listeners(rng: random.Random, cls: str, n: int, suspend_first: bool) -> list:
+    out = []
+    for i in range(n):
+        r = rng.random()
+        if i == 0 and suspend_first:
+            r = 0.25 + 0.60 * rng.random()
+        if r < 0.13:
+            out.append(['plain'])
+        elif r < 0.25:
+            out.append(['async'])
+        elif r < 0.50:
+            out.append(['yield', rng.choice([1, 1, 2, 3])])
+        elif r < 0.62:
+            out.append(['nap', rng.choice([1, 2, 4])])
+        elif r < 0.85:
+            out.append(['gate'])
+        elif r < 0.92:
+            out.append(['raise'])
+        elif cls == 'R':
+            out.append(['remove', rng.choice([0, 0, 1])])
+        elif cls == 'X':
+            out.append(['research', 1])
+        else:
+            out.append(['plain'])
+    return out
+
+
+def _gen_multi(rng: random.Random) -> dict:
+    """MONITOR ONLY: every event class has SEVERAL listeners, some of which suspend (for 1..3 loop iterations, for
+    some seconds, or until the schedule releases them), fail, or act (remove the request on a result, search again on
+    a removal). Searches and replies run as tasks of their own; while an event is being handed from listener to
+    listener the schedule removes the request (by ticket / by object), lets time pass, delivers replies and
+    WishlistInterval messages, closes the server connection, cancels / re-arms timers, or stops the manager."""
+    cfg = _gen_cfg(rng)
+    cfg['initial'] = 1
+    wish = rng.random() < 0.3
+    if wish:
+        cfg['items'] = rng.choice([[1], [1, 1], [1, 0, 1]])
+        cfg['wt'] = rng.choice([-1, -1, 2, 3, 0])
+        cfg['rt'] = rng.choice([0, 2, 3, 5])
+    else:
+        cfg['rt'] = rng.choice([1, 2, 2, 3, 5])
+    focus = rng.choice(['X', 'X', 'X', 'R', 'R', 'S'])
+    lis = {}
+    for cls in ('S', 'R', 'X'):
+        n = rng.choice([2, 2, 3]) if cls == focus else rng.choice([0, 0, 1, 2])
+        lis[cls] = _gen_listeners(rng, cls, n, suspend_first=(cls == focus))
+    cfg['lis'] = lis
+    ops: list = []
+    draws = 0
+    for _ in range(rng.randint(0, 2)):
+        ops += [['gsearch', rng.choice(['net', 'room', 'user'])]]
+        draws += 1
+        if rng.random() < 0.7:
+            ops.append(['sleep', rng.choice([0, 0, 1])])
+    if wish:
+        iv = rng.choice([2, 3, 4])
+        ops += [['wlmsg', iv], ['sleep', 0]]
+        draws += 1
+        T = (cfg['wt'] if cfg['wt'] >= 0 else iv) or cfg['rt'] or 3
+    else:
+        ops += [['gsearch', rng.choice(['net', 'room', 'user'])], ['sleep', 0]]
+        draws += 1
+        T = cfg['rt']
+    tks = _tickets(1, draws + 3)
+    tk = tks[draws - 1]
+    stopped = False
+    for _ in range(rng.randint(3, 8)):
+        r = rng.random()
+        t = tk if rng.random() < 0.75 else rng.choice(tks)
+        if r < 0.28:
+            d = rng.choice([0, 0, 1, max(T - 1, 0), T, T, T + 1])
+            ops += [['jump', d], ['sleep', 0]] if (d and rng.random() < 0.3) else [['sleep', d]]
+        elif r < 0.40:
+            ops.append([rng.choice(['remove', 'removeobj']), t])
+        elif r < 0.58:
+            ops.append(['greply', t])
+            if rng.random() < 0.6:
+                ops.append(['sleep', 0])
+        elif r < 0.72:
+            ops.append(['lrelease'])
+            if rng.random() < 0.7:
+                ops.append(['sleep', 0])
+        elif r < 0.78 and not stopped:
+            ops.append(['wlmsg', rng.choice([2, 3, 4])])
+            wish = True
+        elif r < 0.83:
+            ops.append(['wlclose'])
+        elif r < 0.88:
+            ops.append(rng.choice([['tcancel', t], ['tresched', t, rng.choice([0, 1, 2])]]))
+        elif r < 0.94 and not stopped:
+            ops += [['gsearch', rng.choice(['net', 'room', 'user'])], ['sleep', 0]]
+        elif not stopped and rng.random() < 0.5:
+            ops.append(['stop'])
+            stopped = True
+    ops += [['lrelease'], ['sleep', 0]]
+    if wish:
+        ops += [['wlclose'], ['srelease'], ['lrelease'], ['sleep', 0]]
+    ops += [['sleep', T + rng.choice([1, 5, 9])], ['lrelease'], ['sleep', rng.choice([0, 6, 15])]]
+    return {'cfg': cfg, 'ops': ops, 'kind': 'multi', 'what': 'focus-' + focus}
+
+
+def _fixed_multi() -> list[dict]:
+    out = []
+    b = {'store': 1, 'initial': 1}
+    srcs = [(dict(b, rt=3, wt=-1, items=[]), [['gsearch', 'net'], ['sleep', 0]], 3),
+            (dict(b, rt=0, wt=-1, items=[1]), [['wlmsg', 4], ['sleep', 0]], 4),
+            (dict(b, rt=5, wt=2, items=[1]), [['wlmsg', 5], ['sleep', 0]], 2)]
+    for cfg, pre, T in srcs:
+        wl = [['wlclose']] if cfg['items'] else []
+        # the removal report at EXPIRY with a listener that suspends for 0..3 iterations / a second / on a gate /
+        # fails, followed by two more listeners
+        for first in (['async'], ['yield', 1], ['yield', 3], ['nap', 1], ['gate'], ['raise']):
+            out.append({'cfg': dict(cfg, lis={'S': [], 'R': [], 'X': [first, ['plain'], ['async']]}), 'kind': 'multi',
+                        'what': 'fixed', 'ops': pre + [['sleep', T]] + wl + [['lrelease'], ['sleep', 0], ['sleep', 6]]})
+        # … while the report is suspended: removal by ticket / by object, a reply, a WishlistInterval message, the
+        # server closing, stop(), time
+        for mid in ([['remove', 2]], [['removeobj', 2]], [['greply', 2], ['sleep', 0]], [['wlmsg', 3], ['sleep', 0]],
+                    [['wlclose'], ['sleep', 0]], [['stop'], ['sleep', 0]], [['sleep', T + 1]]):
+            out.append({'cfg': dict(cfg, lis={'S': [], 'R': [['plain']], 'X': [['gate'], ['yield', 1], ['plain']]}),
+                        'kind': 'multi', 'what': 'fixed',
+                        'ops': pre + [['sleep', T]] + mid + wl + [['lrelease'], ['sleep', 0], ['sleep', 6]]})
+        # a result handed from listener to listener while the request is removed / expires / stop()
+        for mid in ([['remove', 2]], [['removeobj', 2]], [['sleep', T]], [['stop'], ['sleep', 0]],
+                    [['greply', 2], ['sleep', 0], ['remove', 2]]):
+            out.append({'cfg': dict(cfg, lis={'S': [['yield', 1]], 'R': [['gate'], ['yield', 2], ['plain']],
+                                             'X': [['yield', 1], ['plain']]}),
+                        'kind': 'multi', 'what': 'fixed',
+                        'ops': pre + [['greply', 2], ['sleep', 0]] + mid + wl + [['lrelease'], ['sleep', 0], ['sleep', 6]]})
+        # a result listener that removes the request; later replies / the timeout must stay silent
+        out.append({'cfg': dict(cfg, lis={'S': [], 'R': [['yield', 1], ['remove', 0], ['plain']], 'X': [['plain'], ['async']]}),
+                    'kind': 'multi', 'what': 'fixed',
+                    'ops': pre + [['greply', 2], ['greply', 2], ['sleep', 0], ['greply', 2], ['sleep', 0]] + wl + [['sleep', T + 3]]})
+    # a removal listener that searches again (the new request is reported and expires like any other)
+    out.append({'cfg': dict(b, rt=2, wt=-1, items=[], lis={'S': [['yield', 1]], 'R': [], 'X': [['research', 2], ['yield', 1], ['plain']]}),
+                'kind': 'multi', 'what': 'fixed', 'ops': [['gsearch', 'user'], ['sleep', 0], ['sleep', 10]]})
+    return out
+
+
+def _gen_notify(rng: random.Random) -> dict:
+    """MODELLED (Search.nstep): 1..3 extra SearchRequestRemovedEvent listeners that each wait until the schedule lets
+    them return (`resume <ticket>`: one listener returns, the loop runs); everything else as in the random /
+    same-instant families, plus remove_request(<object>)."""
+    base = _gen_instant(rng) if rng.random() < 0.5 else _gen_random(rng)
+    while base['cfg']['initial'] != 1:         # (the generator near its wrap is the business of the families above)
+        base = _gen_instant(rng) if rng.random() < 0.5 else _gen_random(rng)
+    cfg = base['cfg']
+    if cfg['rt'] <= 0 and rng.random() < 0.7:
+        cfg['rt'] = rng.choice([1, 2, 3])
+    n = rng.choice([1, 2, 2, 3])
+    cfg['lis'] = {'S': [], 'R': [], 'X': [['gate'] for _ in range(n)]}
+    guess = _tickets(1, 6)
+    ops: list = []
+    for op in base['ops']:
+        if op[0] == 'remove' and rng.random() < 0.4:
+            op = ['removeobj', op[1]]
+        ops.append(op)
+        if rng.random() < 0.30:
+            ops.append(['resume', rng.choice(guess[:4])])
+    for _ in range(rng.randint(0, 2 * n + 1)):
+        ops.append(['resume', rng.choice(guess[:4])])
+        if rng.random() < 0.3:
+            ops.append(rng.choice([['sleep', rng.choice([0, 1, 3])], ['removeobj', rng.choice(guess[:4])],
+                                   ['remove', rng.choice(guess[:4])], ['reply', rng.choice(guess[:4])],
+                                   ['search', 'net']]))
+    return {'cfg': cfg, 'ops': ops, 'kind': 'notify'}
+
+
+def _fixed_notify() -> list[dict]:
+    out = []
+    b = {'store': 1, 'initial': 1}
+    for n in (1, 2, 3):
+        lis = {'S': [], 'R': [], 'X': [['gate']] * n}
+        out.append({'cfg': dict(b, rt=3, wt=-1, items=[], lis=lis), 'kind': 'notify',
+                    'ops': [['search', 'net'], ['sleep', 3]] + [['resume', 2]] * (n + 1) + [['sleep', 5]]})
+        out.append({'cfg': dict(b, rt=3, wt=-1, items=[], lis=lis), 'kind': 'notify',
+                    'ops': [['search', 'net'], ['search', 'user'], ['sleep', 3], ['resume', 3], ['removeobj', 2], ['remove', 3],
+                            ['reply', 2], ['search', 'room'], ['resume', 2], ['sleep', 3], ['resume', 2], ['resume', 3],
+                            ['resume', 4], ['resume', 2], ['resume', 3], ['resume', 4], ['resume', 4], ['resume', 4]]})
+        out.append({'cfg': dict(b, rt=0, wt=2, items=[1, 1], lis=lis), 'kind': 'notify',
+                    'ops': [['wlmsg', 5], ['sleep', 2], ['resume', 2], ['wlmsg', 3], ['resume', 3], ['sleep', 2], ['wlclose'],
+                            ['resume', 2], ['resume', 3], ['resume', 4], ['resume', 5], ['sleep', 4]]})
+    return out
+
+
 # known defects of the unchanged tree (repaired by the proposed patches) — replayed on every run
 W_REMOVE = {'cfg': {'rt': 5, 'wt': -1, 'store': 1, 'initial': 1, 'items': []}, 'kind': 'witness',
             'ops': [['search', 'net'], ['remove', 2], ['sleep', 10]]}
@@ -1071,7 +1257,7 @@ def _nontrivial(case, tr) -> bool:
     return timed_out and stale
 
 
-MONITOR_ONLY = ('gated', 'gsent')       # case families evaluated by the monitor only (the model stays atomic)
+MONITOR_ONLY = ('gated', 'gsent', 'multi')   # case families evaluated by the monitor only (the model stays atomic)
 
 
 def _gated_stats(case, tr) -> dict:
@@ -1150,6 +1336,10 @@ class C18(Property):
         cases += _fixed_gated() + [_gen_gated(rng2) for _ in range(n // 5)]
         rng3 = random.Random(f'C18-gsent-{seed}')
         cases += _fixed_gsent() + [_gen_gsent(rng3) for _ in range(n // 5)]
+        rng4 = random.Random(f'C18-multi-{seed}')
+        cases += _fixed_multi() + [_gen_multi(rng4) for _ in range(n // 4)]
+        rng5 = random.Random(f'C18-notify-{seed}')
+        cases += _fixed_notify() + [_gen_notify(rng5) for _ in range(n // 5)]
         return cases
 
     def correspondence(self, seed, tier, model_ok, widen=1):
